@@ -73,6 +73,8 @@ pub open spec fn queue_ok(z: Zeroconf) -> bool {
     forall|i: int| 0 <= i < z.retransmissions@.len() ==> cmd_ok((#[trigger] z.retransmissions@[i]).command)
 }
 pub open spec fn backoff(d: u32) -> u32 { if 2 * d <= 3600 { (2 * d) as u32 } else { 3600u32 } }
+// set_ip_check_interval(u32 seconds) stores seconds * 1000
+pub open spec fn interval_ok(z: Zeroconf) -> bool { z.ip_check_interval <= 0xFFFF_FFFFu64 * 1000 }
 pub open spec fn sat_add(a: u64, b: u64) -> u64 { if a + b > u64::MAX { u64::MAX } else { (a + b) as u64 } }
 
 impl Zeroconf {
@@ -190,14 +192,15 @@ impl Zeroconf {
     #[verifier::external_body]
     pub fn process_set_option(&mut self, daemon_opt: DaemonOption)
         ensures final(self).retransmissions == old(self).retransmissions, final(self).timers == old(self).timers,
+            interval_ok(*old(self)) ==> interval_ok(*final(self)),   // the only writer of ip_check_interval; fed by set_ip_check_interval(u32)
     { unimplemented!() }
     #[verifier::external_body]
     pub fn del_interface_addr(&mut self, intf: &Interface)
-        ensures queue_ok(*old(self)) ==> queue_ok(*final(self)), timers_cover(*old(self)) ==> timers_cover(*final(self)),
+        ensures queue_ok(*old(self)) ==> queue_ok(*final(self)), timers_cover(*old(self)) ==> timers_cover(*final(self)), final(self).ip_check_interval == old(self).ip_check_interval,
     { unimplemented!() }
     #[verifier::external_body]
     pub fn check_ip_changes(&mut self)
-        ensures queue_ok(*old(self)) ==> queue_ok(*final(self)), timers_cover(*old(self)) ==> timers_cover(*final(self)),
+        ensures queue_ok(*old(self)) ==> queue_ok(*final(self)), timers_cover(*old(self)) ==> timers_cover(*final(self)), final(self).ip_check_interval == old(self).ip_check_interval,
     { unimplemented!() }
     #[verifier::external_body]
     pub fn send_cmd_to_self(&self, cmd: Command) -> (r: Result<()>) { unimplemented!() }
